@@ -30,3 +30,40 @@ var expectedSupplyWriters = map[string]string{
 	"x/oracle/keeper.msgServer.Tip -> call@x/oracle/keeper.Keeper.transfer":                             "MsgTip handler",
 	"x/oracle/keeper.Keeper.transfer -> BurnCoins@(x/oracle/types.BankKeeper).BurnCoins":                 "2% tip burn",
 }
+
+var expectedMapRanges = map[string]string{
+	"app.App.AutoCliOpts -> range map[string]interface{}":                                    "CLI option assembly at start-up, not block execution",
+	"app.App.ModuleAccountAddrs -> range map[string][]string":                                "builds a map from a map at start-up: insertion order is irrelevant",
+	"lib.GetSortedKeys -> range map[K]V":                                                     "collects keys and sorts them (keys are distinct, order total)",
+	"x/bridge/keeper.Keeper.PowerDiff -> range map[string]int64":                             "commutative accumulation: obligations x/bridge/keeper.Keeper.PowerDiff#order.loop2.*",
+	"x/oracle/keeper.Keeper.AllocateRewards -> range map[string]keeper.ReportersReportCount": "collect-then-sort: the collected addresses are distinct map keys and the payout loop runs in strictly increasing address order (loop 2/3 invariants of AllocateRewards)",
+	"x/oracle/keeper.Keeper.WeightedMode -> range map[string]int":                            "maximum with a fixed tie rule: obligations x/oracle/keeper.Keeper.WeightedMode#order.loop2.* and #ensures.equal_weight_ties_resolved_by_fixed_rule",
+}
+
+var expectedUnstableSorts = map[string]string{
+	"lib.GetSortedKeys -> sort.Sort":       "keys of a map are distinct; the order is total",
+	"lib.Median -> sort.Slice":             "sorts integers: equal elements are indistinguishable (C20 proves the result)",
+	"lib.Median[int32] -> sort.Slice":      "sorts integers: equal elements are indistinguishable (C20 proves the result)",
+	"lib.Median[int64] -> sort.Slice":      "sorts integers: equal elements are indistinguishable (C20 proves the result)",
+	"lib.Median[uint32] -> sort.Slice":     "sorts integers: equal elements are indistinguishable (C20 proves the result)",
+	"lib.Median[uint64] -> sort.Slice":     "sorts integers: equal elements are indistinguishable (C20 proves the result)",
+	"x/bridge/keeper.Keeper.GetCurrentValidatorsEVMCompatible -> sort.Slice": "power descending then EVM address ascending: total on members with distinct EVM addresses (uniqueness of registered EVM addresses is assumed)",
+	"x/oracle/keeper.Keeper.AllocateRewards -> sort.Slice":                   "sort by address; addresses are distinct map keys (strict order proved as loop invariant)",
+}
+
+var expectedForbiddenSources = map[string]string{
+	"app.VoteExtHandler.GetOperatorAddress -> github.com/spf13/viper.GetString": "vote extension construction reads node-local key configuration by design; its output reaches state only through the proposal handler (C17)",
+	"app.VoteExtHandler.InitKeyring -> github.com/spf13/viper.GetString":        "vote extension construction reads node-local key configuration by design (C17)",
+	"app.VoteExtHandler.SignMessage -> github.com/spf13/viper.GetString":        "vote extension construction reads node-local key configuration by design (C17)",
+	"x/mint.BeginBlocker -> time.Now[telemetry-only]":                           "wall clock value flows only into a telemetry call",
+	"x/oracle/utils.Salt -> crypto/rand.Read":                                   "client-side helper for commit/reveal salts; not called from block execution",
+}
+
+var expectedGoroutines = map[string]string{
+	"app.New -> go statement": "daemon start-up in app construction, not block execution",
+	"x/bridge/types.RegisterQueryHandlerFromEndpoint -> go statement":   "generated grpc-gateway code (query serving)",
+	"x/dispute/types.RegisterQueryHandlerFromEndpoint -> go statement":  "generated grpc-gateway code (query serving)",
+	"x/oracle/types.RegisterQueryHandlerFromEndpoint -> go statement":   "generated grpc-gateway code (query serving)",
+	"x/registry/types.RegisterQueryHandlerFromEndpoint -> go statement": "generated grpc-gateway code (query serving)",
+	"x/reporter/types.RegisterQueryHandlerFromEndpoint -> go statement": "generated grpc-gateway code (query serving)",
+}
